@@ -128,15 +128,25 @@ type scWorld struct {
 	cfg     *prom.ConfigManager
 	rt      *scriptedRT
 	cbFail  bool
+	// what the update callbacks were last handed: the targets the injector writes into the configuration of the
+	// shard's Prometheus, i.e. the only ones that can be scraped (nil after a start that did not call them)
+	delivered map[uint64]bool
 	prom    int64
 	jobInfo map[string]*scrape.JobInfo
 }
 
 func (w *scWorld) start() error {
 	w.tm = sidecar.NewTargetsManager(w.dir, prometheus.NewRegistry(), quietLog)
-	w.tm.AddUpdateCallbacks(func(map[string][]*target.Target) error {
+	w.delivered = nil
+	w.tm.AddUpdateCallbacks(func(ts map[string][]*target.Target) error {
 		if w.cbFail {
 			return fmt.Errorf("scripted callback failure")
+		}
+		w.delivered = map[uint64]bool{}
+		for _, l := range ts {
+			for _, t := range l {
+				w.delivered[t.Hash] = true
+			}
 		}
 		return nil
 	})
